@@ -1,0 +1,62 @@
+//! Hook points for external verification harnesses.
+//!
+//! Only compiled with the cargo feature `verif` (off by default). With the
+//! feature on and no callback installed every hook is a no-op, so behaviour is
+//! unchanged. A harness may install one process-wide callback which is told
+//! when execution reaches a named point; the callback may block (to pause a
+//! thread) or unwind (to simulate a crash before a storage write).
+
+use std::sync::{Arc, RwLock};
+
+/// A named point in the code.
+#[derive(Clone, Copy, Debug, PartialEq, Eq, Hash)]
+pub enum Point {
+    /// Right before a RocksDB write (put / delete / batch commit) is issued.
+    BeforeWrite(&'static str),
+    /// Right before the caller tries to take the matched-blocks lock.
+    LockIntent(&'static str),
+    /// The scope which holds the matched-blocks lock ends.
+    LockScopeEnd(&'static str),
+    /// One step of a long-running read (an iteration of an RPC query).
+    Iter(&'static str),
+}
+
+pub type Callback = Arc<dyn Fn(Point) + Send + Sync>;
+
+static CALLBACK: RwLock<Option<Callback>> = RwLock::new(None);
+
+/// Installs (or removes, with `None`) the process-wide callback.
+pub fn install(callback: Option<Callback>) {
+    *CALLBACK.write().unwrap_or_else(|e| e.into_inner()) = callback;
+}
+
+/// Reports that execution reached `point`.
+#[inline]
+pub fn at(point: Point) {
+    let callback = CALLBACK
+        .read()
+        .unwrap_or_else(|e| e.into_inner())
+        .as_ref()
+        .cloned();
+    if let Some(callback) = callback {
+        callback(point);
+    }
+}
+
+/// Reports `LockScopeEnd` when dropped.
+pub struct ScopeGuard(pub &'static str);
+
+impl Drop for ScopeGuard {
+    fn drop(&mut self) {
+        at(Point::LockScopeEnd(self.0));
+    }
+}
+
+/// Reports `LockIntent` now and `LockScopeEnd` when the returned guard drops.
+///
+/// Declare the returned guard *before* taking the lock, so that it is dropped
+/// after the lock guard.
+pub fn lock_scope(site: &'static str) -> ScopeGuard {
+    at(Point::LockIntent(site));
+    ScopeGuard(site)
+}
